@@ -88,6 +88,12 @@ def gen_case(rng):
     vq_lo = 0.5 * vis[0] if nvi > 1 else 1.0
     lo, hi = value_range(z, vq_lo)
     t[z] = [[ud(rng, lo, hi, 4) for _ in t["io"]] for _ in t["vi"]]
+    r = rng.random()
+    if nvi > 1 and r < 0.08:
+        t[z] = [[x] * len(t["io"]) for x in (ud(rng, lo, hi, 4) for _ in t["vi"])]      # depends on vi only: every row constant along io
+    elif r < 0.14:
+        col = [ud(rng, lo, hi, 4) for _ in t["io"]]
+        t[z] = [list(col) for _ in t["vi"]]                                             # depends on io only: all rows equal
     if rng.random() < 0.1 and 0 < t["io"][0] < t["io"][1]:
         t["io"][0] = -t["io"][0]               # a negative sign on the first knot keeps the axis increasing in magnitude
     if nvi > 1 and rng.random() < 0.1:
